@@ -85,7 +85,8 @@ type readBack struct {
 	Refs     []cps  `json:"refs"`
 }
 type behaviour struct {
-	Res      resource `json:"res"`
+	Res      resource        `json:"-"`
+	ResRaw   json.RawMessage `json:"res"`
 	Pieces   []piece  `json:"pieces"`
 	Read     readBack `json:"read"`
 	Faithful bool     `json:"faithful"`
@@ -409,6 +410,9 @@ func cmdReplay(args []string) int {
 		if err := json.Unmarshal(line, &b); err != nil {
 			return err
 		}
+		if err := json.Unmarshal(b.ResRaw, &b.Res); err != nil {
+			return err
+		}
 		idx++
 		var want strings.Builder
 		for _, p := range b.Pieces {
@@ -428,7 +432,7 @@ func cmdReplay(args []string) int {
 					continue
 				}
 				if err != nil {
-					r := hx.CaseResult{ID: fmt.Sprintf("c%05d-%s", idx, route), Input: map[string]any{"res": b.Res, "route": route}}
+					r := hx.CaseResult{ID: fmt.Sprintf("c%05d-%s", idx, route), Input: map[string]any{"res": b.ResRaw, "route": route}}
 					r.Drift = append(r.Drift, map[string]any{"obs": "plan-not-read", "detail": firstLine(err.Error())})
 					out.Write(r)
 					continue
@@ -436,10 +440,9 @@ func cmdReplay(args []string) int {
 				f = tf
 			}
 			r := hx.CaseResult{ID: fmt.Sprintf("c%05d-%s", idx, route), Validated: true,
-				Input: map[string]any{"res": b.Res, "route": route},
+				Input: map[string]any{"res": b.ResRaw, "route": route},
 				Class: map[string]any{"kind": b.Res.Kind, "route": route, "chars": classes(b.Res)}}
-			key, _ := json.Marshal(b.Res)
-			r.Key = route + ":" + string(key)
+			r.Key = route + ":" + string(b.ResRaw)
 			o, _, err := generate(f)
 			r.Observed = o
 			mm := func(obs, field string, exp, got any) {
